@@ -296,6 +296,30 @@ pub(crate) fn c14_decompress_gate() {
         }
     }
     let _ = (r.is_some(), nz, neg);
+    #[cfg(not(kani))]
+    {
+        // native twin: decode then re-encode. The decoder returns -A, so encode(0 - decode(e)) must give back e for every valid encoding e.
+        // Tried on the counterexample string and on the encodings of k*B, k = 1..4000 (about sixteen of them have 0x80 as last byte).
+        let check = |e: &[u8; 32]| {
+            if let Some(minus_a) = Ge::from_bytes(e) {
+                let a = (&Ge::ZERO - &minus_a.to_cached()).to_full();
+                let back = a.to_bytes();
+                // only canonical encodings of non-exceptional points round-trip byte for byte
+                let canonical = Fe::from_bytes(e).to_bytes()[..31] == e[..31] && (Fe::from_bytes(e).to_bytes()[31] | (e[31] & 0x80)) == e[31];
+                if canonical {
+                    assert!(&back == e, "decompress: x negated exactly when its parity equals bit 255 of the encoding");
+                }
+            }
+        };
+        check(&s);
+        let mut k = [0u8; 32];
+        for i in 1..4000u32 {
+            k[0] = i as u8;
+            k[1] = (i >> 8) as u8;
+            let e = Ge::scalarmult_base(&Scalar::from_bytes(&k)).to_bytes();
+            check(&e);
+        }
+    }
 }
 
 // ------------------------------------------------------------------------------------------------ double_scalarmult_vartime walk
